@@ -76,7 +76,11 @@ const (
 // strictFromDryUp switches R5 to the stricter reading "the grace period runs from the DryUp call" (what the doc comment
 // of the stream constructors says). NOT part of the registered check (exploration aid: VERIF_C19_STRICT=1); on the
 // unchanged tree it reports `...:grace=not-elapsed-since-DryUp` (the paginator measures from its last HasNext()==true).
-var strictFromDryUp = os.Getenv("VERIF_C19_STRICT") == "1"
+// It is the REGISTERED reading since the build session adopted it (the constructors' doc comment says the grace period
+// runs "between the stream being marked as running dry and the iteration actually ending", and an independently seeded
+// change that let iteration end the instant DryUp was called slipped through the weaker reading);
+// VERIF_C19_STRICT=0 switches back to the weaker one.
+var strictFromDryUp = os.Getenv("VERIF_C19_STRICT") != "0"
 
 // ---- the scripted collection ---------------------------------------------------------------------
 
